@@ -567,8 +567,7 @@ func TestC08(t *testing.T) {
 
 	flush := func() {
 		if f != nil {
-			rep.CoqFiles = append(rep.CoqFiles, f.finish(t, dir))
-			rep.CaseFiles = append(rep.CaseFiles, writeJSONL(t, dir, f.name+".jsonl", jl))
+			f.finishSharded(t, dir, rep, jl, 400)
 			f, jl = nil, nil
 		}
 	}
